@@ -126,6 +126,13 @@ func UntarDirectory(r io.Reader, destDir string) error {
 			return err
 		}
 
+		// Only a directory entry may name the destination itself ("." or "a/.."):
+		// link entries remove the target path before creating the link, which
+		// would delete or replace the destination directory.
+		if targetPath == destDir && header.Typeflag != tar.TypeDir {
+			return fmt.Errorf("tar entry names the destination directory itself: %q", header.Name)
+		}
+
 		// The checks above are lexical. Refuse to go through a symbolic link
 		// that already exists below destDir (created by an earlier entry or
 		// present before the upload): it may lead outside destDir. Directories
